@@ -1423,49 +1423,50 @@ Proof.
   - rewrite E3 in X. destruct X.
 Qed.
 
+
+Lemma issued_step_le st l c : (issued (step st l) c <= S (issued st c))%nat.
+Proof.
+  destruct l as [c1 s o a p|c1 i|c1 i|c1 i|c1 ty s o a id p|c1|c1|s o|c1]; cbn [Call.step].
+  - unfold do_alloc. destruct (rawc st c1); [lia|]. fields. unfold upd. destruct (Nat.eqb_spec c c1); subst; lia.
+  - unfold do_send. destruct (_ && _); cbn; lia.
+  - unfold do_return. destruct (k_chan _); [|lia]. destruct (k_waiting _); cbn; lia.
+  - unfold do_cancel. destruct (k_waiting _); cbn; lia.
+  - unfold do_raw. destruct (_ || _); cbn; lia.
+  - unfold Call.do_srv. destruct (c2s st c1); [lia|]. destruct (negb _); [cbn; lia|].
+    destruct (target _ _ _); try (destruct (answer_frames (set_c2s st (upd (c2s st) c1 l)) c1 f T_Error err_payload) as [_ [E _]]; rewrite E); cbn; lia.
+  - unfold Call.do_srvdrop. destruct (c2s st c1); [lia|]. destruct (_ =? _); [|cbn; lia].
+    destruct (answer_frames (set_c2s st (upd (c2s st) c1 l)) c1 f T_Error err_payload) as [_ [E _]]. rewrite E. cbn; lia.
+  - unfold Call.do_mbox. destruct (take_mail _ _ _) as [[[c0 g] r]|]; [|lia].
+    destruct (target _ _ _);
+      try (match goal with |- context [answer ?a ?b ?c ?d ?e] => destruct (answer_frames a b c d e) as [_ [E _]]; rewrite E end; cbn; lia).
+    destruct (negb (runs _ _)); [cbn; lia|]. destruct (negb (okargs _ _ _ _)).
+    + match goal with |- context [answer ?a ?b ?c ?d ?e] => destruct (answer_frames a b c d e) as [_ [E _]]; rewrite E end; cbn; lia.
+    + destruct (_ =? _); [cbn; lia|]. destruct (callerr _ _ _ _);
+      match goal with |- context [answer ?a ?b ?c ?d ?e] => destruct (answer_frames a b c d e) as [_ [E _]]; rewrite E end; cbn; lia.
+  - unfold do_cli. destruct (s2c st c1); cbn; lia.
+Qed.
+
+Lemma issued_le_length ls : forall st c, (issued (exec st ls) c <= issued st c + List.length ls)%nat.
+Proof.
+  induction ls as [|l r IH]; intros st c; cbn [Call.exec List.length]; [lia|].
+  pose proof (IH (step st l) c). pose proof (issued_step_le st l c). lia.
+Qed.
+
+(* a schedule of fewer than 2^31 labels cannot exhaust the id space *)
+Lemma bounded_short ls : N.of_nat (List.length ls) <= 2 ^ 31 -> bounded (exec init ls).
+Proof. intros H c. pose proof (issued_le_length ls init c) as L. cbn [issued init] in L. lia. Qed.
+
+
+Lemma invA_exec ls : forall st, invA st -> invA (exec st ls).
+Proof. induction ls as [|l r IH]; intros st I; cbn [Call.exec]; [exact I|]. apply IH. now apply invA_step. Qed.
+
+Theorem dispatch_unique_reachable : forall ls, let st := exec init ls in bounded st ->
+  forall c i j g, In g (s2c st c) -> (i < issued st c)%nat -> (j < issued st c)%nat ->
+  hit (calls st c i) g = true -> hit (calls st c j) g = true ->
+  i = j /\ f_tag g = TCall c i.
+Proof.
+  intros ls st Bd c i j g Hin Li Lj Hi Hj. pose proof (invA_exec ls init invA_init) as IA. fold st in IA.
+  split; [eapply dispatch_unique; eauto|eapply hit_is_own; eauto].
+Qed.
+
 End Proofs.
-
-(* ---------- a concrete system: witnesses for the defect switches and non-vacuity ---------- *)
-Definition ex_target (s o a : N) : tgt :=
-  if s =? 1 then if o =? 1 then if a =? 100 then Meth else NoAct else NoObj else NoSvc.
-Definition ex_fres (s o a : N) (p : bytes) : bytes := rev p.
-Definition ex_ok (s o a : N) (p : bytes) : bool := negb (Nat.eqb (List.length p) 0).
-Definition ex_callerr (s o a : N) (p : bytes) : bool := false.
-Definition run_ex (cf : cfg) (ls : list label) : state := exec cf ex_target ex_fres ex_ok ex_callerr init ls.
-Definition p12 : bytes := [x01; x02].
-Definition p345 : bytes := [x03; x04; x05].
-
-(* two calls in flight on one connection, answers handled in the other order of the returns *)
-Definition ex_two_calls : list label :=
-  [LAlloc 0 1 1 100 p12; LAlloc 0 1 1 100 p345; LSend 0 1; LSend 0 0; LSrv 0; LSrv 0; LMbox 1 1; LMbox 1 1;
-   LCli 0; LCli 0; LReturn 0 0; LReturn 0 1].
-
-Lemma ex_two_calls_results :
-  let st := run_ex cfg_clean ex_two_calls in
-  k_result (calls st 0 0) = Some (ROk (rev p12)) /\ k_result (calls st 0 1) = Some (ROk (rev p345)) /\
-  ex st (TCall 0 0) = 1%nat /\ ex st (TCall 0 1) = 1%nat /\ k_returns (calls st 0 0) = 1%nat /\ bounded st.
-Proof. cbv zeta. repeat split; try (vm_compute; reflexivity). intro c. vm_compute. destruct c as [|c]; discriminate. Qed.
-
-(* pinned tree: a call that is cancelled runs its method twice (the Cancel frame is dispatched on
-   the action only) *)
-Definition ex_cancel : list label :=
-  [LAlloc 0 1 1 100 p12; LSend 0 0; LSrv 0; LMbox 1 1; LCancel 0 0; LSrv 0; LMbox 1 1].
-Lemma ex_cancel_runs_twice : ex (run_ex cfg_pinned ex_cancel) (TCall 0 0) = 2%nat.
-Proof. vm_compute. reflexivity. Qed.
-Lemma ex_cancel_clean_once : ex (run_ex cfg_clean ex_cancel) (TCall 0 0) = 1%nat.
-Proof. vm_compute. reflexivity. Qed.
-
-(* pinned tree: a Capability (6) or Cancel (7) frame from any peer runs the method and is answered with a Reply *)
-Definition ex_raw (ty : N) : list label := [LRaw 0 ty 1 1 100 7 p12; LSrv 0; LMbox 1 1].
-Lemma ex_capability_runs :
-  ex (run_ex cfg_pinned (ex_raw T_Capability)) (TRaw 0 0) = 1%nat /\
-  map f_type (s2c (run_ex cfg_pinned (ex_raw T_Capability)) 0) = [T_Reply] /\
-  ex (run_ex cfg_pinned (ex_raw T_Cancel)) (TRaw 0 0) = 1%nat.
-Proof. vm_compute. repeat split; reflexivity. Qed.
-
-(* pinned tree: a Post to an action that does not exist (or whose arguments cannot be decoded)
-   is answered with an Error frame *)
-Definition ex_post_noact : list label := [LRaw 0 T_Post 1 1 999 7 p12; LSrv 0; LMbox 1 1].
-Lemma ex_post_answered :
-  back (run_ex cfg_pinned ex_post_noact) (TRaw 0 0) = 1%nat /\ rawty (run_ex cfg_pinned ex_post_noact) 0 0 = T_Post.
-Proof. vm_compute. split; reflexivity. Qed.
